@@ -51,7 +51,15 @@ func runSolver(ctx context.Context, sd solverDef, file string, timeoutS int) (st
 	_ = cmd.Run()
 	ms = time.Since(t0).Milliseconds()
 	raw = out.String()
-	first := strings.TrimSpace(strings.SplitN(raw, "\n", 2)[0])
+	first := ""
+	for _, l := range strings.Split(raw, "\n") {
+		l = strings.TrimSpace(l)
+		if l == "" || strings.HasPrefix(l, "WARNING") || strings.HasPrefix(l, "(warning") {
+			continue
+		}
+		first = l
+		break
+	}
 	switch first {
 	case "unsat", "sat", "unknown":
 		status = first
@@ -166,11 +174,20 @@ func sanitizeFile(s string) string {
 // parseModel parses the (get-value ...) answer "((sym val) (sym val))".
 func parseModel(raw string) map[string]string {
 	m := map[string]string{}
-	i := strings.Index(raw, "\n")
+	i := strings.Index(raw, "\nsat")
+	if strings.HasPrefix(raw, "sat") {
+		i = 0
+	} else if i >= 0 {
+		i++
+	}
 	if i < 0 {
 		return m
 	}
-	body := strings.TrimSpace(raw[i+1:])
+	j := strings.Index(raw[i:], "\n")
+	if j < 0 {
+		return m
+	}
+	body := strings.TrimSpace(raw[i+j+1:])
 	if !strings.HasPrefix(body, "(") {
 		return m
 	}
